@@ -185,13 +185,6 @@ Definition col_is (sc : scan) (name : string) (unq : list string) (s : string) :
   | None => existsb (String.eqb s) unq
   | Some (q, n) => String.eqb n name && qualifier_ok sc q
   end.
-Definition is_ts_col (sc : scan) (e : expr) : bool :=
-  match e with Id s => col_is sc "timestamp_ns" (sc_tsn sc) s | _ => false end.
-Definition is_date_col (sc : scan) (e : expr) : bool :=
-  match e with Id s => col_is sc "date" ["date"] s | _ => false end.
-Definition is_type_col (sc : scan) (e : expr) : bool :=
-  match e with Id s => col_is sc "type" ["type"] s | _ => false end.
-
 (* 'YYYY-MM-DD' -> day number, validated through date_string *)
 Definition digits_val (s : string) : option Z :=
   if forall_chars is_digit s && negb (String.eqb s "") then
@@ -226,28 +219,34 @@ Definition date_val (e : expr) : option Z :=
 Definition ints_of (l : list expr) : option (list Z) :=
   fold_right (fun e acc => match e, acc with IntV z, Some r => Some (z :: r) | _, _ => None end) (Some []) l.
 
+Definition ts_bnd (op : lop) (b : expr) : list bnd :=
+  match b, op with
+  | IntV z, OGe => [TsLo z]
+  | IntV z, OGt => [TsLo (z + 1)]
+  | IntV z, OLt => [TsHi z]
+  | IntV z, OLe => [TsHi (z + 1)]
+  | _, _ => []
+  end.
+Definition date_bnd (op : lop) (b : expr) : list bnd :=
+  match date_val b, op with
+  | Some d, OGe => [DLo d]
+  | Some d, OGt => [DLo (d + 1)]
+  | Some d, OLe => [DHi d]
+  | Some d, OLt => [DHi (d - 1)]
+  | _, _ => []
+  end.
+(* a conjunct says something about the window only when it compares a column NAME with a value:
+   date / type by name (or qualified by this scan's alias or table), the timestamp column by
+   timestamp_ns qualified, or unqualified through sc_tsn *)
 Definition classify (sc : scan) (e : expr) : list bnd :=
   match e with
-  | LOp op [a; b] =>
-    if is_ts_col sc a then
-      match b, op with
-      | IntV z, OGe => [TsLo z]
-      | IntV z, OGt => [TsLo (z + 1)]
-      | IntV z, OLt => [TsHi z]
-      | IntV z, OLe => [TsHi (z + 1)]
-      | _, _ => []
-      end
-    else if is_date_col sc a then
-      match date_val b, op with
-      | Some d, OGe => [DLo d]
-      | Some d, OGt => [DLo (d + 1)]
-      | Some d, OLe => [DHi d]
-      | Some d, OLt => [DHi (d - 1)]
-      | _, _ => []
-      end
-    else if is_type_col sc a then [TyOther]
+  | LOp op [Id s; b] =>
+    if col_is sc "date" ["date"] s then date_bnd op b
+    else if col_is sc "type" ["type"] s then [TyOther]
+    else if col_is sc "timestamp_ns" (sc_tsn sc) s then ts_bnd op b
     else []
-  | In a r => if is_type_col sc a then match ints_of r with Some l => [Ty l] | None => [TyOther] end else []
+  | In (Id s) r =>
+    if col_is sc "type" ["type"] s then match ints_of r with Some l => [Ty l] | None => [TyOther] end else []
   | _ => []
   end.
 
